@@ -168,7 +168,7 @@ pub(super) fn derive_schema(input: TokenStream) -> syn::Result<TokenStream> {
                             ::ohkami::openapi::schema::Schema::<::ohkami::openapi::schema::Type::any>::from(
                                 <#inner_option as ::ohkami::openapi::Schema>::schema()
                                     .into(/* SchemaRef */).into_inline().unwrap()
-                            )
+                            ).nullable(/* serde writes `None` as `null` */)
                         }} else {quote! {
                             ::ohkami::openapi::schema::Schema::<::ohkami::openapi::schema::Type::any>::from(
                                 <#ty as ::ohkami::openapi::Schema>::schema()
